@@ -4,6 +4,7 @@
 
 #[path = "/repo/node/src/config.rs"]
 mod config;
+mod cluster;
 #[path = "/repo/node/src/node.rs"]
 mod node;
 
